@@ -40,7 +40,7 @@ class DbaSpec(netx.Spec):
             except (ValueError, KeyError):
                 bad.append(c["name"] + ":unset")
                 continue
-            if t >= INF:
+            if t >= self.params.get("infinity", INF):
                 bad.append(c["name"])
         return bad
 
@@ -90,6 +90,12 @@ def instances(tier):
                 spec = {"vars": {v: list(range(d)) for v in names}, "cons": [{"name": f"c{i}", "scope": list(e), "table": coloring(e, d)} for i, e in enumerate(edges)], "mode": "min"}
                 h = (H if not q else 5) if len(names) <= 3 and d == 2 else (3 if q else 5)
                 out.append((spec, {"max_distance": md, "infinity": INF}, h))
+    # a non-default infinity parameter (hard constraints cost exactly that value): the pair with all {0, 100} tables, the 3-chain
+    for flat in itertools.product((0, 100), repeat=4):
+        t = [[flat[0], flat[1]], [flat[2], flat[3]]]
+        out.append(({"vars": {"v0": [0, 1], "v1": [0, 1]}, "cons": [{"name": "c0", "scope": ["v0", "v1"], "table": t}], "mode": "min"}, {"max_distance": 1, "infinity": 100}, H))
+    names, edges = ["v0", "v1", "v2"], [("v0", "v1"), ("v1", "v2")]
+    out.append(({"vars": {v: [0, 1] for v in names}, "cons": [{"name": f"c{i}", "scope": list(e), "table": [[100 if a == b else 0 for b in range(2)] for a in range(2)]} for i, e in enumerate(edges)], "mode": "min"}, {"max_distance": 2, "infinity": 100}, 5 if q else H))
     # a too small max_distance is outside the property (max_distance at or above the diameter): not generated
     return out
 
@@ -155,7 +161,7 @@ def run(ctx):
     items = instances(ctx.tier)
     ctx.rule = (
         "explicit-state search of the real DBA computations over a virtual per-channel-FIFO network on small CSPs with hard constraints at "
-        "infinity=10000: the pair with ALL 16 {0,infinity} tables, graph colouring on the 3-chain, the triangle (thorough: the 4-chain) with 2 and "
+        "infinity=10000 (and, for the pair and the 3-chain, the non-default infinity=100): the pair with ALL 16 {0,infinity} tables, graph colouring on the 3-chain, the triangle (thorough: the 4-chain) with 2 and "
         f"3 colours, max_distance in {{diameter, diameter+1}}; ALL start orders, delivery interleavings, initial values and tie picks with state "
         f"caching, horizon {H} cycles per computation (4-5 for the larger ones). Oracle evaluated inside every finished() notification: the "
         "values held by all computations at that moment violate no constraint. Plus the 5-cycle (2 colours, 3 on one variable, max_distance 2 = "
